@@ -229,6 +229,14 @@ def law_union_typevar(ctx, cat, spec, form):
         lhs, rhs = (lambda: D[A | B, spec]), (lambda: Union[D[A, spec], D[B, spec]])
     elif form == "union3":
         lhs, rhs = (lambda: D[Union[A, B, Any], spec]), (lambda: Union[D[A, spec], D[B, spec], D[Any, spec]])
+    elif form == "Union-nested":
+        # members that are themselves annotations: each member is nested separately, so a member whose dtypes do not
+        # intersect the outer category makes the whole thing an error -- exactly as in the spelled-out union
+        X1, X2 = jaxtyping.Float[A, "a"], jaxtyping.Bool[A, "a"]
+        lhs, rhs = (lambda: D[Union[X1, X2], spec]), (lambda: Union[D[X1, spec], D[X2, spec]])
+    elif form == "bar-nested":
+        X1, X2 = jaxtyping.Int[A, "a"], jaxtyping.Float[B, "a"]
+        lhs, rhs = (lambda: D[X1 | X2, spec]), (lambda: Union[D[X1, spec], D[X2, spec]])
     elif form == "tv-plain":
         lhs, rhs = (lambda: D[T_PLAIN, spec]), (lambda: D[Any, spec])
     elif form == "tv-bound":
@@ -315,7 +323,7 @@ def law_aliases(ctx):
             raise Violation("A-law", {"law": "A", "alias": "sanity"}, "Scalar/ScalarLike/PRNGKeyArray do not accept/reject the documented examples")
 
 
-FIXED_SPEC_PAIRS = [("c", "b", False, False), ("... c", "b", True, False), ("", "*v 3", False, True)]
+FIXED_SPEC_PAIRS = [("c", "b", False, False), ("... c", "b", True, False), ("", "*v 3", False, True), ("... c", "*v b", True, True)]
 RANK0 = [("", True), ("...", True), ("*v", True), ("*#v", True), ("a", False), ("... a", False), ("3", False), ("_", False), ("*v a", False)]
 
 
@@ -327,7 +335,7 @@ def run(ctx):
             if i % ctx.nshards != ctx.shard:
                 continue
             for j, (s1, s2, m1, m2) in enumerate(FIXED_SPEC_PAIRS):
-                if ctx.tier == "quick" and j != (i % 3):
+                if ctx.tier == "quick" and j != (i % 4):
                     # quick: one spec pair per category pair (all three in the thorough tier); building is checked for all
                     kind, ann = build(lambda: getattr(jaxtyping, c2)[getattr(jaxtyping, c1)[np.ndarray, s1], s2])
                     inter = dt.intersect(c1, c2)
@@ -361,7 +369,7 @@ def run(ctx):
     ctx.hyp(nesting3, max_examples=ctx.n(120, 1200))
 
     @given(st.sampled_from(["Float", "Shaped", "Int", "Num", "Bool", "Float32", "UInt8", "Key"] + CATS), spec_st,
-           st.sampled_from(["Union", "Union-rev", "bar", "union3", "tv-plain", "tv-bound", "tv-bound-union", "tv-constrained"]))
+           st.sampled_from(["Union-nested", "Union", "Union-rev", "bar", "bar-nested", "union3", "tv-plain", "tv-bound", "tv-bound-union", "tv-constrained"]))
     def union_typevar(cat, toks, form):
         obs.reset_state()
         law_union_typevar(ctx, cat, dl.spec_spelling(toks), form)
